@@ -74,7 +74,13 @@ ARG_OK = {
 
 
 # bytes.decode / str.encode of peer supplied text on a receiver the resolver cannot type (PDU fields, payloads): strict codecs raise
-TEXT_CATALOG = {'decode': ['UnicodeDecodeError'], 'encode': ['UnicodeEncodeError']}
+def _codec_call(call):
+    """bytes.decode / str.encode take codec names: a call with another kind of positional argument is a method of the same name of
+    some other class (ATR_RES.decode(frame))."""
+    return all(isinstance(a, ast.Constant) and isinstance(a.value, str) for a in call.args)
+
+
+TEXT_CATALOG = {'decode': (['UnicodeDecodeError'], _codec_call), 'encode': (['UnicodeEncodeError'], _codec_call)}
 
 
 def _harmless_text(it):
